@@ -124,7 +124,7 @@ package gkvlite
 //   io.writes / io.truncs / io.reads  number of WriteAt / Truncate / ReadAt calls issued
 //   io.minoff[f] smallest offset any WriteAt on f has been given so far
 //   src.file[a], src.off[a]   buffer backing array a was last filled by ReadAt from file src.file[a] at offset src.off[a] (+ index)
-//@ ghost file (Array Int (Array Int Int))
+//@ ghost fbytes (Array Int (Array Int Int))
 //@ ghost flen (Array Int Int)
 //@ ghost io.fails Int
 //@ ghost io.writes Int
@@ -139,8 +139,8 @@ package gkvlite
 
 //@ interface StoreFile.ReadAt(p, off) (n, err)
 //@   modifies content(p), ghost io.fails, ghost io.reads, ghost io.valbytes, ghost src
-//@   ensures io.valbytes == old(io.valbytes) + valueOverlap(file[recv], off, len(p))
-//@   ensures err == nil ==> off >= 0 && off + len(p) <= flen[recv] && content(p) == shiftcopy(old(content(p)), file[recv], off, off(p), len(p))
+//@   ensures io.valbytes == old(io.valbytes) + valueOverlap(fbytes[recv], off, len(p))
+//@   ensures err == nil ==> off >= 0 && off + len(p) <= flen[recv] && content(p) == shiftcopy(old(content(p)), fbytes[recv], off, off(p), len(p))
 //@   ensures err == nil ==> io.fails == old(io.fails)
 //@   ensures err != nil ==> io.fails == old(io.fails) + 1
 //@   ensures io.reads == old(io.reads) + 1
@@ -149,8 +149,8 @@ package gkvlite
 
 //@ interface io.ReaderAt.ReadAt(p, off) (n, err)
 //@   modifies content(p), ghost io.fails, ghost io.reads, ghost io.valbytes, ghost src
-//@   ensures io.valbytes == old(io.valbytes) + valueOverlap(file[recv], off, len(p))
-//@   ensures err == nil ==> off >= 0 && off + len(p) <= flen[recv] && content(p) == shiftcopy(old(content(p)), file[recv], off, off(p), len(p))
+//@   ensures io.valbytes == old(io.valbytes) + valueOverlap(fbytes[recv], off, len(p))
+//@   ensures err == nil ==> off >= 0 && off + len(p) <= flen[recv] && content(p) == shiftcopy(old(content(p)), fbytes[recv], off, off(p), len(p))
 //@   ensures err == nil ==> io.fails == old(io.fails)
 //@   ensures err != nil ==> io.fails == old(io.fails) + 1
 //@   ensures io.reads == old(io.reads) + 1
@@ -158,20 +158,20 @@ package gkvlite
 //@   ensures forall a :: a != arr(p) ==> src.file[a] == old(src.file[a]) && src.off[a] == old(src.off[a])
 
 //@ interface StoreFile.WriteAt(p, off) (n, err)
-//@   modifies ghost file, ghost flen, ghost io.fails, ghost io.writes, ghost io.minoff
-//@   ensures forall f :: f != recv ==> file[f] == old(file[f]) && flen[f] == old(flen[f]) && io.minoff[f] == old(io.minoff[f])
-//@   ensures forall i :: !(off <= i && i < off + len(p)) ==> file[recv][i] == old(file[recv][i])
-//@   ensures err == nil ==> file[recv] == shiftcopy(old(file[recv]), content(p), off(p), off, len(p)) && flen[recv] == max(old(flen[recv]), off + len(p))
+//@   modifies ghost fbytes, ghost flen, ghost io.fails, ghost io.writes, ghost io.minoff
+//@   ensures forall f :: f != recv ==> fbytes[f] == old(fbytes[f]) && flen[f] == old(flen[f]) && io.minoff[f] == old(io.minoff[f])
+//@   ensures forall i :: !(off <= i && i < off + len(p)) ==> fbytes[recv][i] == old(fbytes[recv][i])
+//@   ensures err == nil ==> fbytes[recv] == shiftcopy(old(fbytes[recv]), content(p), off(p), off, len(p)) && flen[recv] == max(old(flen[recv]), off + len(p))
 //@   ensures err != nil ==> old(flen[recv]) <= flen[recv] && flen[recv] <= max(old(flen[recv]), off + len(p))
 //@   ensures err == nil ==> io.fails == old(io.fails)
 //@   ensures err != nil ==> io.fails == old(io.fails) + 1
 //@   ensures io.writes == old(io.writes) + 1 && io.minoff[recv] == min(old(io.minoff[recv]), off)
 
 //@ interface io.WriterAt.WriteAt(p, off) (n, err)
-//@   modifies ghost file, ghost flen, ghost io.fails, ghost io.writes, ghost io.minoff
-//@   ensures forall f :: f != recv ==> file[f] == old(file[f]) && flen[f] == old(flen[f]) && io.minoff[f] == old(io.minoff[f])
-//@   ensures forall i :: !(off <= i && i < off + len(p)) ==> file[recv][i] == old(file[recv][i])
-//@   ensures err == nil ==> file[recv] == shiftcopy(old(file[recv]), content(p), off(p), off, len(p)) && flen[recv] == max(old(flen[recv]), off + len(p))
+//@   modifies ghost fbytes, ghost flen, ghost io.fails, ghost io.writes, ghost io.minoff
+//@   ensures forall f :: f != recv ==> fbytes[f] == old(fbytes[f]) && flen[f] == old(flen[f]) && io.minoff[f] == old(io.minoff[f])
+//@   ensures forall i :: !(off <= i && i < off + len(p)) ==> fbytes[recv][i] == old(fbytes[recv][i])
+//@   ensures err == nil ==> fbytes[recv] == shiftcopy(old(fbytes[recv]), content(p), off(p), off, len(p)) && flen[recv] == max(old(flen[recv]), off + len(p))
 //@   ensures err != nil ==> old(flen[recv]) <= flen[recv] && flen[recv] <= max(old(flen[recv]), off + len(p))
 //@   ensures err == nil ==> io.fails == old(io.fails)
 //@   ensures err != nil ==> io.fails == old(io.fails) + 1
@@ -189,7 +189,7 @@ package gkvlite
 //@   ensures err == nil ==> fi != nil && statsize(fi) == flen[recv] && io.fails == old(io.fails)
 //@   ensures err != nil ==> io.fails == old(io.fails) + 1
 
-//@ interface fs.FileInfo.Size() (n)
+//@ interface os.FileInfo.Size() (n)
 //@   ensures n == statsize(recv) && n >= 0
 
 // ---------------------------------------------------------------------------
@@ -211,15 +211,15 @@ package gkvlite
 //@   requires s != nil && s.file != nil && len(rootsEnd) == 24 && arr(rootsEnd) != arr(MagicEnd) && arr(rootsEnd) != arr(MagicBeg)
 //@   modifies s.size, content(rootsEnd), ghost io.fails, ghost io.reads, ghost io.valbytes, ghost src
 //@   ensures [C07] E1: io.fails >= old(io.fails) && (io.fails > old(io.fails) ==> result != nil)
-//@   ensures [C03,C08] landed: result == nil ==> (s.size == 0 && defaultToEmpty && old(s.size) <= 44 || s.size == 0 && defaultToEmpty && old(s.size) > 44 || s.size > 44 && magicEndAt(file[s.file], s.size)) && s.size <= max(old(s.size), 0)
-//@   ensures [C03,C08] skipped-none: result == nil ==> forall p :: s.size < p && p <= old(s.size) && p > 44 ==> !magicEndAt(file[s.file], p)
-//@   ensures [C03] buffer: result == nil && s.size > 0 ==> agree(content(rootsEnd), file[s.file], s.size - 24, off(rootsEnd), 24)
+//@   ensures [C03,C08] landed: result == nil ==> (s.size == 0 && defaultToEmpty && old(s.size) <= 44 || s.size == 0 && defaultToEmpty && old(s.size) > 44 || s.size > 44 && magicEndAt(fbytes[s.file], s.size)) && s.size <= max(old(s.size), 0)
+//@   ensures [C03,C08] skipped-none: result == nil ==> forall p :: s.size < p && p <= old(s.size) && p > 44 ==> !magicEndAt(fbytes[s.file], p)
+//@   ensures [C03] buffer: result == nil && s.size > 0 ==> agree(content(rootsEnd), fbytes[s.file], s.size - 24, off(rootsEnd), 24)
 //@   ensures [C09] never-grows: s.size <= max(old(s.size), 0)
-//@   ensures [C03,C08] not-found: result != nil && io.fails == old(io.fails) ==> !defaultToEmpty && forall p :: p <= old(s.size) && p > 44 ==> !magicEndAt(file[s.file], p)
+//@   ensures [C03,C08] not-found: result != nil && io.fails == old(io.fails) ==> !defaultToEmpty && forall p :: p <= old(s.size) && p > 44 ==> !magicEndAt(fbytes[s.file], p)
 //@   ensures [C19] reads-only-trailers: true
 //@   loop 0 modifies s.size, content(rootsEnd), ghost io.fails, ghost io.reads, ghost io.valbytes, ghost src
 //@   loop 0 invariant s.size <= old(s.size) && io.fails == old(io.fails)
-//@   loop 0 invariant forall p :: s.size < p && p <= old(s.size) && p > 44 ==> !magicEndAt(file[s.file], p)
+//@   loop 0 invariant forall p :: s.size < p && p <= old(s.size) && p > 44 ==> !magicEndAt(fbytes[s.file], p)
 //@   loop 0 decreases s.size
 
 //@ func (*Store).readRootsEnd
@@ -234,24 +234,26 @@ package gkvlite
 //@   requires [C05,C18] nolocks: locks == emptyLocks()
 //@   trusted
 //@   requires s != nil && len(data) >= 20 && src.file[arr(data)] != 0
-//@   requires mirrored: agree(content(data), file[src.file[arr(data)]], src.off[arr(data)] + off(data), off(data), len(data))
+//@   requires mirrored: agree(content(data), fbytes[src.file[arr(data)]], src.off[arr(data)] + off(data), off(data), len(data))
 //@   modifies s.coll
-//@   ensures [C03] accept: result == nil ==> fbe32(file[src.file[arr(data)]], src.off[arr(data)] + off(data) + 12) == 4 && fbe32(file[src.file[arr(data)]], src.off[arr(data)] + off(data) + 16) == length && jsonOKAt(file[src.file[arr(data)]], src.off[arr(data)] + off(data) + 20, len(data) - 20)
-//@   ensures [C03] reject: result != nil ==> !(fbe32(file[src.file[arr(data)]], src.off[arr(data)] + off(data) + 12) == 4 && fbe32(file[src.file[arr(data)]], src.off[arr(data)] + off(data) + 16) == length && jsonOKAt(file[src.file[arr(data)]], src.off[arr(data)] + off(data) + 20, len(data) - 20))
+//@   ensures [C03] accept: result == nil ==> fbe32(fbytes[src.file[arr(data)]], src.off[arr(data)] + off(data) + 12) == 4 && fbe32(fbytes[src.file[arr(data)]], src.off[arr(data)] + off(data) + 16) == length && jsonOKAt(fbytes[src.file[arr(data)]], src.off[arr(data)] + off(data) + 20, len(data) - 20)
+//@   ensures [C03] reject: result != nil ==> !(fbe32(fbytes[src.file[arr(data)]], src.off[arr(data)] + off(data) + 12) == 4 && fbe32(fbytes[src.file[arr(data)]], src.off[arr(data)] + off(data) + 16) == length && jsonOKAt(fbytes[src.file[arr(data)]], src.off[arr(data)] + off(data) + 20, len(data) - 20))
 //@   ensures result != nil ==> s.coll == old(s.coll)
+//@   ensures result == nil ==> s.coll != nil
 
 //@ func (*Store).checkAndReadRoots
 //@   props C03 C02 C08 C07 C09 C19
 //@   requires [C05,C18] nolocks: locks == emptyLocks()
-//@   from: C03 statement: a position is accepted iff a complete self-consistent root record ends there; C07: a file error is an error, not a verdict
+//@   from: C03 statement: a position is accepted iff a complete self-consistent root record ends there; C07: a fbytes error is an error, not a verdict
 //@   requires s != nil && s.file != nil && len(rootsEnd) == 24 && arr(MagicBeg) != 0
 //@   modifies s.coll, ghost io.fails, ghost io.reads, ghost io.valbytes, ghost src
 //@   ensures [C07] E1: io.fails >= old(io.fails) && (io.fails > old(io.fails) ==> result1 != nil)
-//@   ensures [C07] only-file-errors: result1 != nil ==> io.fails > old(io.fails) && !result0
-//@   ensures [C03,C08] accept: result1 == nil && result0 ==> s.size > 44 && rootFramed(file[s.file], s.size, offset, length)
-//@   ensures [C03,C08] reject: result1 == nil && !result0 ==> !(s.size > 44 && rootFramed(file[s.file], s.size, offset, length))
+//@   ensures [C07] only-fbytes-errors: result1 != nil ==> io.fails > old(io.fails) && !result0
+//@   ensures [C03,C08] accept: result1 == nil && result0 ==> s.size > 44 && rootFramed(fbytes[s.file], s.size, offset, length)
+//@   ensures [C03,C08] reject: result1 == nil && !result0 ==> !(s.size > 44 && rootFramed(fbytes[s.file], s.size, offset, length))
 //@   ensures [C03] size-kept: s.size == old(s.size)
 //@   ensures [C07] failed-changes-nothing: !result0 ==> s.coll == old(s.coll)
+//@   ensures [C02] accepted-roots-installed: result0 ==> s.coll != nil
 //@   ensures [C19] reads-only-the-root: io.reads <= old(io.reads) + 1
 
 //@ func (*Store).readRootsScan
@@ -261,15 +263,16 @@ package gkvlite
 //@   requires s != nil && s.file != nil
 //@   modifies s.size, s.coll, ghost io.fails, ghost io.reads, ghost io.valbytes, ghost src
 //@   ensures [C07] E1: io.fails >= old(io.fails) && (io.fails > old(io.fails) ==> err != nil)
-//@   ensures [C03,C08,C02] lands-on-valid: err == nil && s.size > 0 ==> validRootEndingAt(file[s.file], s.size) && s.size <= old(s.size)
-//@   ensures [C03,C08,C02] greatest: err == nil ==> forall p :: s.size < p && p <= old(s.size) ==> !validRootEndingAt(file[s.file], p)
+//@   ensures [C03,C08,C02] lands-on-valid: err == nil && s.size > 0 ==> validRootEndingAt(fbytes[s.file], s.size) && s.size <= old(s.size)
+//@   ensures [C03,C08,C02] greatest: err == nil ==> forall p :: s.size < p && p <= old(s.size) ==> !validRootEndingAt(fbytes[s.file], p)
 //@   ensures [C08,C03] empty-only-if-asked: err == nil && s.size <= 0 ==> defaultToEmpty && s.size == 0
-//@   ensures [C03] none-found: err != nil && io.fails == old(io.fails) ==> forall p :: p <= old(s.size) ==> !validRootEndingAt(file[s.file], p)
+//@   ensures [C03] none-found: err != nil && io.fails == old(io.fails) ==> forall p :: p <= old(s.size) ==> !validRootEndingAt(fbytes[s.file], p)
 //@   ensures [C09] never-grows: s.size <= max(old(s.size), 0)
+//@   ensures [C02] collections-stay-set: old(s.coll) != nil ==> s.coll != nil
 //@   loop 0 modifies s.size, s.coll, content(rootsEnd), ghost io.fails, ghost io.reads, ghost io.valbytes, ghost src
 //@   loop 0 invariant [C07] no-io-failure-so-far: io.fails == old(io.fails)
-//@   loop 0 invariant bounds: s.size <= max(old(s.size), 0)
-//@   loop 0 invariant [C03,C08] none-above: forall p :: s.size < p && p <= old(s.size) ==> !validRootEndingAt(file[s.file], p)
+//@   loop 0 invariant bounds: s.size <= max(old(s.size), 0) && s.coll == old(s.coll)
+//@   loop 0 invariant [C03,C08] none-above: forall p :: s.size < p && p <= old(s.size) ==> !validRootEndingAt(fbytes[s.file], p)
 //@   loop 0 decreases s.size
 
 // ---------------------------------------------------------------------------
@@ -280,18 +283,20 @@ package gkvlite
 //@   requires [C05,C18] nolocks: locks == emptyLocks()
 //@   from: C14 node record layout; C02 P3 (offset/length/size bookkeeping exact); C09 W1 (append only); C07 E3 (a failed write changes nothing)
 //@   requires nloc != nil && o != nil && o.file != nil && o.size >= 0
-//@   modifies nloc.loc, o.size, new ploc.Offset, new ploc.Length, ghost file, ghost flen, ghost io.fails, ghost io.writes, ghost io.minoff
+//@   requires [C02,C14] P2-children-first: nloc.node != nil && emptyLoc(nloc.loc) ==> (!emptyLoc(nloc.node.left.loc) || nloc.node.left.node == nil) && (!emptyLoc(nloc.node.right.loc) || nloc.node.right.node == nil)
+//@   relies P2-item-located: nloc.node != nil && emptyLoc(nloc.loc) ==> !emptyLoc(nloc.node.item.loc)
+//@   modifies nloc.loc, o.size, new ploc.Offset, new ploc.Length, ghost fbytes, ghost flen, ghost io.fails, ghost io.writes, ghost io.minoff
 //@   ensures [C07] E1: io.fails >= old(io.fails) && (io.fails > old(io.fails) ==> result != nil)
 //@   ensures [C07,C03] E3: result != nil ==> o.size == old(o.size) && nloc.loc == old(nloc.loc)
-//@   ensures [C02] skip: old(!emptyLoc(nloc.loc) || nloc.node == nil) ==> result == nil && file == old(file) && o.size == old(o.size) && io.writes == old(io.writes) && nloc.loc == old(nloc.loc)
+//@   ensures [C02] skip: old(!emptyLoc(nloc.loc) || nloc.node == nil) ==> result == nil && fbytes == old(fbytes) && o.size == old(o.size) && io.writes == old(io.writes) && nloc.loc == old(nloc.loc)
 //@   ensures [C14,C02] bookkeeping: result == nil && old(emptyLoc(nloc.loc) && nloc.node != nil) ==> nloc.loc != nil && fresh(nloc.loc) && nloc.loc.Offset == old(o.size) && nloc.loc.Length == 52 && o.size == old(o.size) + 52
-//@   ensures [C14,C02] rec-item: result == nil && old(emptyLoc(nloc.loc) && nloc.node != nil) ==> plocRecAt(file[o.file], old(o.size), old(locOff(nloc.node.item.loc)), old(locLen(nloc.node.item.loc)))
-//@   ensures [C14,C02] rec-left: result == nil && old(emptyLoc(nloc.loc) && nloc.node != nil) ==> plocRecAt(file[o.file], old(o.size) + 12, old(locOff(nloc.node.left.loc)), old(locLen(nloc.node.left.loc)))
-//@   ensures [C14,C02] rec-right: result == nil && old(emptyLoc(nloc.loc) && nloc.node != nil) ==> plocRecAt(file[o.file], old(o.size) + 24, old(locOff(nloc.node.right.loc)), old(locLen(nloc.node.right.loc)))
-//@   ensures [C14,C02,C13] rec-aggregates: result == nil && old(emptyLoc(nloc.loc) && nloc.node != nil) ==> fbe64(file[o.file], old(o.size) + 36) == old(nloc.node.numNodes) && fbe64(file[o.file], old(o.size) + 44) == old(nloc.node.numBytes)
-//@   ensures [C09,C03] append-only: io.minoff[o.file] >= min(old(io.minoff[o.file]), old(o.size)) && samePrefix(file[o.file], old(file[o.file]), old(o.size))
-//@   ensures [C03] at-most-one-write: io.writes <= old(io.writes) + 1
-//@   ensures [C09] other-files: forall f :: f != o.file ==> file[f] == old(file[f]) && flen[f] == old(flen[f]) && io.minoff[f] == old(io.minoff[f])
+//@   ensures [C14,C02] rec-item: result == nil && old(emptyLoc(nloc.loc) && nloc.node != nil) ==> plocRecAt(fbytes[o.file], old(o.size), old(locOff(nloc.node.item.loc)), old(locLen(nloc.node.item.loc)))
+//@   ensures [C14,C02] rec-left: result == nil && old(emptyLoc(nloc.loc) && nloc.node != nil) ==> plocRecAt(fbytes[o.file], old(o.size) + 12, old(locOff(nloc.node.left.loc)), old(locLen(nloc.node.left.loc)))
+//@   ensures [C14,C02] rec-right: result == nil && old(emptyLoc(nloc.loc) && nloc.node != nil) ==> plocRecAt(fbytes[o.file], old(o.size) + 24, old(locOff(nloc.node.right.loc)), old(locLen(nloc.node.right.loc)))
+//@   ensures [C14,C02,C13] rec-aggregates: result == nil && old(emptyLoc(nloc.loc) && nloc.node != nil) ==> fbe64(fbytes[o.file], old(o.size) + 36) == old(nloc.node.numNodes) && fbe64(fbytes[o.file], old(o.size) + 44) == old(nloc.node.numBytes)
+//@   ensures [C09,C03] append-only: io.minoff[o.file] >= min(old(io.minoff[o.file]), old(o.size)) && samePrefix(fbytes[o.file], old(fbytes[o.file]), old(o.size))
+//@   ensures [C03] at-most-one-write: io.writes <= old(io.writes) + 1 && io.writes >= old(io.writes) && o.size >= old(o.size)
+//@   ensures [C09] other-files: forall f :: f != o.file ==> fbytes[f] == old(fbytes[f]) && flen[f] == old(flen[f]) && io.minoff[f] == old(io.minoff[f])
 
 // ===========================================================================
 // store.go: callback types (A9: what "behaviourally neutral" means) and their dispatch wrappers.
@@ -322,15 +327,15 @@ package gkvlite
 //@   from: A9: performs only r.ReadAt calls inside [offset, offset+valLength) and sets i.Val to those bytes
 //@   modifies i.Val, new mem.byte, ghost io.fails, ghost io.reads, ghost io.valbytes, ghost src
 //@   ensures io.fails >= old(io.fails) && (io.fails > old(io.fails) ==> err != nil)
-//@   ensures err == nil ==> i.Val != nil && len(i.Val) == valLength && agree(content(i.Val), file[r], offset, off(i.Val), valLength)
+//@   ensures err == nil ==> i.Val != nil && len(i.Val) == valLength && agree(content(i.Val), fbytes[r], offset, off(i.Val), valLength)
 //@   ensures io.valbytes >= old(io.valbytes)
 
 //@ functype StoreCallbacks.ItemValWrite(c, i, w, offset) (err)
 //@   from: A9: performs only w.WriteAt calls inside [offset, offset+vlen(i)) that together store the value
-//@   modifies ghost file, ghost flen, ghost io.fails, ghost io.writes, ghost io.minoff
+//@   modifies ghost fbytes, ghost flen, ghost io.fails, ghost io.writes, ghost io.minoff
 //@   ensures io.fails >= old(io.fails) && (io.fails > old(io.fails) ==> err != nil)
-//@   ensures forall f :: f != w ==> file[f] == old(file[f]) && flen[f] == old(flen[f]) && io.minoff[f] == old(io.minoff[f])
-//@   ensures forall j :: !(offset <= j && j < offset + vlenOf(c.store, i)) ==> file[w][j] == old(file[w][j])
+//@   ensures forall f :: f != w ==> fbytes[f] == old(fbytes[f]) && flen[f] == old(flen[f]) && io.minoff[f] == old(io.minoff[f])
+//@   ensures forall j :: !(offset <= j && j < offset + vlenOf(c.store, i)) ==> fbytes[w][j] == old(fbytes[w][j])
 //@   ensures io.minoff[w] >= min(old(io.minoff[w]), offset) && io.writes >= old(io.writes)
 //@   ensures old(flen[w]) <= flen[w] && flen[w] <= max(old(flen[w]), offset + vlenOf(c.store, i))
 
@@ -375,7 +380,7 @@ package gkvlite
 //@   requires s != nil && i != nil && r != nil
 //@   modifies i.Val, new mem.byte, ghost io.fails, ghost io.reads, ghost io.valbytes, ghost src
 //@   ensures [C07] E1: io.fails >= old(io.fails) && (io.fails > old(io.fails) ==> result != nil)
-//@   ensures [C02,C17] value: result == nil ==> i.Val != nil && len(i.Val) == valLength && agree(content(i.Val), file[r], offset, off(i.Val), valLength)
+//@   ensures [C02,C17] value: result == nil ==> i.Val != nil && len(i.Val) == valLength && agree(content(i.Val), fbytes[r], offset, off(i.Val), valLength)
 //@   ensures io.valbytes >= old(io.valbytes)
 
 //@ func (*Store).ItemValWrite
@@ -383,13 +388,13 @@ package gkvlite
 //@   requires [C05,C18] nolocks: locks == emptyLocks()
 //@   requires s != nil && i != nil && w != nil && c != nil && c.store == s
 //@   relies neutral-length: s.callbacks.ItemValLength != nil && s.callbacks.ItemValWrite == nil ==> cbvlen(i) == len(i.Val)
-//@   modifies ghost file, ghost flen, ghost io.fails, ghost io.writes, ghost io.minoff
+//@   modifies ghost fbytes, ghost flen, ghost io.fails, ghost io.writes, ghost io.minoff
 //@   ensures [C07] E1: io.fails >= old(io.fails) && (io.fails > old(io.fails) ==> result != nil)
-//@   ensures [C09] other-files: forall f :: f != w ==> file[f] == old(file[f]) && flen[f] == old(flen[f]) && io.minoff[f] == old(io.minoff[f])
-//@   ensures [C09,C14] only-value-range: forall j :: !(offset <= j && j < offset + vlenOf(s, i)) ==> file[w][j] == old(file[w][j])
+//@   ensures [C09] other-files: forall f :: f != w ==> fbytes[f] == old(fbytes[f]) && flen[f] == old(flen[f]) && io.minoff[f] == old(io.minoff[f])
+//@   ensures [C09,C14] only-value-range: forall j :: !(offset <= j && j < offset + vlenOf(s, i)) ==> fbytes[w][j] == old(fbytes[w][j])
 //@   ensures [C09] append-only: io.minoff[w] >= min(old(io.minoff[w]), offset) && io.writes >= old(io.writes)
 //@   ensures [C02] length: old(flen[w]) <= flen[w] && flen[w] <= max(old(flen[w]), offset + vlenOf(s, i))
-//@   ensures [C14,C02] default-stores-val: s.callbacks.ItemValWrite == nil && result == nil ==> agree(file[w], content(i.Val), off(i.Val), offset, len(i.Val))
+//@   ensures [C14,C02] default-stores-val: s.callbacks.ItemValWrite == nil && result == nil ==> agree(fbytes[w], content(i.Val), off(i.Val), offset, len(i.Val))
 
 // ---------------------------------------------------------------------------
 // item.go
@@ -430,16 +435,17 @@ package gkvlite
 //@   requires iloc != nil && c != nil && c.store != nil && c.store.file != nil && c.store.size >= 0
 //@   relies u32-limit: iloc.item != nil ==> 16 + len(iloc.item.Key) + vlenOf(c.store, iloc.item) < 4294967296
 //@   relies neutral-length: iloc.item != nil && c.store.callbacks.ItemValLength != nil && c.store.callbacks.ItemValWrite == nil ==> cbvlen(iloc.item) == len(iloc.item.Val)
-//@   modifies iloc.loc, c.store.size, new ploc.Offset, new ploc.Length, new mem.byte, ghost file, ghost flen, ghost io.fails, ghost io.writes, ghost io.minoff
+//@   modifies iloc.loc, c.store.size, new ploc.Offset, new ploc.Length, new mem.byte, ghost fbytes, ghost flen, ghost io.fails, ghost io.writes, ghost io.minoff
 //@   ensures [C07] E1: io.fails >= old(io.fails) && (io.fails > old(io.fails) ==> err != nil)
 //@   ensures [C07,C03] E3: err != nil ==> c.store.size == old(c.store.size) && iloc.loc == old(iloc.loc)
-//@   ensures [C02] skip: old(!emptyLoc(iloc.loc)) ==> err == nil && file == old(file) && c.store.size == old(c.store.size) && io.writes == old(io.writes) && iloc.loc == old(iloc.loc)
+//@   ensures [C02] skip: old(!emptyLoc(iloc.loc)) ==> err == nil && fbytes == old(fbytes) && c.store.size == old(c.store.size) && io.writes == old(io.writes) && iloc.loc == old(iloc.loc)
 //@   ensures [C14,C02,C17] bookkeeping: err == nil && old(emptyLoc(iloc.loc)) ==> iloc.loc != nil && fresh(iloc.loc) && iloc.loc.Offset == old(c.store.size) && iloc.loc.Length == 16 + len(old(iloc.item).Key) + vlenOf(c.store, old(iloc.item)) && c.store.size == old(c.store.size) + iloc.loc.Length
-//@   ensures [C14,C02,C17] header: err == nil && old(emptyLoc(iloc.loc)) ==> itemHdrAt(file[c.store.file], old(c.store.size), 16 + len(old(iloc.item).Key) + vlenOf(c.store, old(iloc.item)), len(old(iloc.item).Key), vlenOf(c.store, old(iloc.item)), old(iloc.item).Priority)
-//@   ensures [C14,C02] key: err == nil && old(emptyLoc(iloc.loc)) ==> agree(file[c.store.file], content(old(iloc.item).Key), off(old(iloc.item).Key), old(c.store.size) + 16, len(old(iloc.item).Key))
-//@   ensures [C14,C02] default-value: err == nil && old(emptyLoc(iloc.loc)) && c.store.callbacks.ItemValWrite == nil ==> agree(file[c.store.file], content(old(iloc.item).Val), off(old(iloc.item).Val), old(c.store.size) + 16 + len(old(iloc.item).Key), len(old(iloc.item).Val))
-//@   ensures [C09,C03] append-only: io.minoff[c.store.file] >= min(old(io.minoff[c.store.file]), old(c.store.size)) && samePrefix(file[c.store.file], old(file[c.store.file]), old(c.store.size))
-//@   ensures [C09] other-files: forall f :: f != c.store.file ==> file[f] == old(file[f]) && flen[f] == old(flen[f]) && io.minoff[f] == old(io.minoff[f])
+//@   ensures [C14,C02,C17] header: err == nil && old(emptyLoc(iloc.loc)) ==> itemHdrAt(fbytes[c.store.file], old(c.store.size), 16 + len(old(iloc.item).Key) + vlenOf(c.store, old(iloc.item)), len(old(iloc.item).Key), vlenOf(c.store, old(iloc.item)), old(iloc.item).Priority)
+//@   ensures [C14,C02] key: err == nil && old(emptyLoc(iloc.loc)) ==> agree(fbytes[c.store.file], content(old(iloc.item).Key), off(old(iloc.item).Key), old(c.store.size) + 16, len(old(iloc.item).Key))
+//@   ensures [C14,C02] default-value: err == nil && old(emptyLoc(iloc.loc)) && c.store.callbacks.ItemValWrite == nil ==> agree(fbytes[c.store.file], content(old(iloc.item).Val), off(old(iloc.item).Val), old(c.store.size) + 16 + len(old(iloc.item).Key), len(old(iloc.item).Val))
+//@   ensures [C09,C03] append-only: io.minoff[c.store.file] >= min(old(io.minoff[c.store.file]), old(c.store.size)) && samePrefix(fbytes[c.store.file], old(fbytes[c.store.file]), old(c.store.size))
+//@   ensures [C09,C03] monotone: io.writes >= old(io.writes) && c.store.size >= old(c.store.size)
+//@   ensures [C09] other-files: forall f :: f != c.store.file ==> fbytes[f] == old(fbytes[f]) && flen[f] == old(flen[f]) && io.minoff[f] == old(io.minoff[f])
 
 //@ func (*itemLoc).read
 //@   props C01 C02 C14 C19 C15 C17 C07 C09
@@ -447,7 +453,7 @@ package gkvlite
 //@   from: C14 item record layout (decoder side of P1); C19 "key-only operations never read a byte of any item's value"; C15 accounting; C07 E1
 //@   requires c != nil && c.store != nil
 //@   requires iloc != nil && !emptyLoc(iloc.loc) ==> c.store.file != nil
-//@   relies record-start: iloc != nil && !emptyLoc(iloc.loc) ==> itemHeadAt(file[c.store.file], iloc.loc.Offset)
+//@   relies record-start: iloc != nil && !emptyLoc(iloc.loc) ==> itemHeadAt(fbytes[c.store.file], iloc.loc.Offset)
 //@   relies slot-holds-ref: iloc != nil && iloc.item != nil && refcb(c.store) ==> net[iloc.item] >= 1
 //@   modifies iloc.item, new Item.Key, new Item.Val, new Item.Priority, new Item.Transient, new mem.byte, ghost net, ghost io.fails, ghost io.reads, ghost io.valbytes, ghost src
 //@   decreases 1
@@ -456,9 +462,9 @@ package gkvlite
 //@   ensures [C01,C19] cache-hit: iloc != nil && old(iloc.item) != nil && !(old(iloc.item.Val) == nil && withValue) ==> icur == old(iloc.item) && err == nil && io.reads == old(io.reads) && net == old(net) && iloc.item == old(iloc.item)
 //@   ensures [C01] unpersisted-miss: iloc != nil && (old(iloc.item) == nil || (old(iloc.item.Val) == nil && withValue)) && emptyLoc(iloc.loc) ==> icur == nil && err == nil && io.reads == old(io.reads) && net == old(net) && iloc.item == old(iloc.item)
 //@   ensures [C19] key-only-reads-no-value: !withValue ==> io.valbytes == old(io.valbytes)
-//@   ensures [C02,C14] loaded-header: iloc != nil && (old(iloc.item) == nil || (old(iloc.item.Val) == nil && withValue)) && !emptyLoc(iloc.loc) && err == nil ==> icur != nil && fresh(icur) && iloc.item == icur && len(icur.Key) == fbe32(file[c.store.file], iloc.loc.Offset + 4) && icur.Priority == s32(fbe32(file[c.store.file], iloc.loc.Offset + 12)) && fbe32(file[c.store.file], iloc.loc.Offset) == 16 + fbe32(file[c.store.file], iloc.loc.Offset + 4) + fbe32(file[c.store.file], iloc.loc.Offset + 8)
-//@   ensures [C02,C14] loaded-key: iloc != nil && (old(iloc.item) == nil || (old(iloc.item.Val) == nil && withValue)) && !emptyLoc(iloc.loc) && err == nil ==> agree(content(icur.Key), file[c.store.file], iloc.loc.Offset + 16, off(icur.Key), len(icur.Key))
-//@   ensures [C02,C14,C17] loaded-value: iloc != nil && (old(iloc.item) == nil || (old(iloc.item.Val) == nil && withValue)) && !emptyLoc(iloc.loc) && err == nil && withValue ==> icur.Val != nil && len(icur.Val) == fbe32(file[c.store.file], iloc.loc.Offset + 8) && agree(content(icur.Val), file[c.store.file], iloc.loc.Offset + 16 + len(icur.Key), off(icur.Val), len(icur.Val))
+//@   ensures [C02,C14] loaded-header: iloc != nil && (old(iloc.item) == nil || (old(iloc.item.Val) == nil && withValue)) && !emptyLoc(iloc.loc) && err == nil ==> icur != nil && fresh(icur) && iloc.item == icur && len(icur.Key) == fbe32(fbytes[c.store.file], iloc.loc.Offset + 4) && icur.Priority == s32(fbe32(fbytes[c.store.file], iloc.loc.Offset + 12)) && fbe32(fbytes[c.store.file], iloc.loc.Offset) == 16 + fbe32(fbytes[c.store.file], iloc.loc.Offset + 4) + fbe32(fbytes[c.store.file], iloc.loc.Offset + 8)
+//@   ensures [C02,C14] loaded-key: iloc != nil && (old(iloc.item) == nil || (old(iloc.item.Val) == nil && withValue)) && !emptyLoc(iloc.loc) && err == nil ==> agree(content(icur.Key), fbytes[c.store.file], iloc.loc.Offset + 16, off(icur.Key), len(icur.Key))
+//@   ensures [C02,C14,C17] loaded-value: iloc != nil && (old(iloc.item) == nil || (old(iloc.item.Val) == nil && withValue)) && !emptyLoc(iloc.loc) && err == nil && withValue ==> icur.Val != nil && len(icur.Val) == fbe32(fbytes[c.store.file], iloc.loc.Offset + 8) && agree(content(icur.Val), fbytes[c.store.file], iloc.loc.Offset + 16 + len(icur.Key), off(icur.Val), len(icur.Val))
 //@   ensures [C07] failed-changes-nothing: err != nil ==> iloc == nil || iloc.item == old(iloc.item)
 //@   ensures [C15] slot-backed: refcb(c.store) && err == nil && iloc != nil && iloc.item != nil ==> net[iloc.item] >= 1
 //@   ensures [C15] balance-loaded: refcb(c.store) && err == nil && icur != nil && fresh(icur) ==> net[icur] == 1 && (forall j :: j != icur && j != old(iloc.item) ==> net[j] == old(net[j])) && (old(iloc.item) != nil ==> net[old(iloc.item)] == old(net[old(iloc.item)]) - 1)
@@ -470,7 +476,7 @@ package gkvlite
 //@   from: C14 node record layout (decoder side of P1); C19 (one 52-byte read of the node record, no value bytes); C07 E1
 //@   requires o != nil
 //@   requires nloc != nil && nloc.node == nil && !emptyLoc(nloc.loc) ==> o.file != nil
-//@   relies node-record-has-no-value-bytes: nloc != nil && !emptyLoc(nloc.loc) ==> noValueIn(file[o.file], nloc.loc.Offset, nloc.loc.Offset + 52)
+//@   relies node-record-has-no-value-bytes: nloc != nil && !emptyLoc(nloc.loc) ==> noValueIn(fbytes[o.file], nloc.loc.Offset, nloc.loc.Offset + 52)
 //@   modifies nloc.node, o.nodeAllocs, new ploc.Offset, new ploc.Length, new node.numNodes, new node.numBytes, new node.next, new itemLoc.loc, new itemLoc.item, new nodeLoc.loc, new nodeLoc.node, new nodeLoc.next, new mem.byte, ghost io.fails, ghost io.reads, ghost io.valbytes, ghost src
 //@   ensures [C07] E1: io.fails >= old(io.fails) && (io.fails > old(io.fails) ==> err != nil)
 //@   ensures [C01] nil-or-empty: nloc == nil || (old(nloc.node) == nil && emptyLoc(nloc.loc)) ==> n == nil && err == nil && io.reads == old(io.reads)
@@ -479,10 +485,10 @@ package gkvlite
 //@   ensures [C19] at-most-one-read: io.reads <= old(io.reads) + 1
 //@   ensures [C07] failed-changes-nothing: err != nil ==> nloc == nil || nloc.node == old(nloc.node)
 //@   ensures [C02,C14] loaded: nloc != nil && old(nloc.node) == nil && !emptyLoc(nloc.loc) && err == nil ==> n != nil && fresh(n) && nloc.node == n && nloc.loc.Length == 52
-//@   ensures [C02,C14] loaded-item: nloc != nil && old(nloc.node) == nil && !emptyLoc(nloc.loc) && err == nil ==> plocRecAt(file[o.file], nloc.loc.Offset, locOff(n.item.loc), locLen(n.item.loc)) && (n.item.loc == nil || !emptyLoc(n.item.loc)) && n.item.item == nil
-//@   ensures [C02,C14] loaded-left: nloc != nil && old(nloc.node) == nil && !emptyLoc(nloc.loc) && err == nil ==> plocRecAt(file[o.file], nloc.loc.Offset + 12, locOff(n.left.loc), locLen(n.left.loc)) && (n.left.loc == nil || !emptyLoc(n.left.loc)) && n.left.node == nil
-//@   ensures [C02,C14] loaded-right: nloc != nil && old(nloc.node) == nil && !emptyLoc(nloc.loc) && err == nil ==> plocRecAt(file[o.file], nloc.loc.Offset + 24, locOff(n.right.loc), locLen(n.right.loc)) && (n.right.loc == nil || !emptyLoc(n.right.loc)) && n.right.node == nil
-//@   ensures [C02,C14,C13] loaded-aggregates: nloc != nil && old(nloc.node) == nil && !emptyLoc(nloc.loc) && err == nil ==> n.numNodes == fbe64(file[o.file], nloc.loc.Offset + 36) && n.numBytes == fbe64(file[o.file], nloc.loc.Offset + 44) && n.next == nil
+//@   ensures [C02,C14] loaded-item: nloc != nil && old(nloc.node) == nil && !emptyLoc(nloc.loc) && err == nil ==> plocRecAt(fbytes[o.file], nloc.loc.Offset, locOff(n.item.loc), locLen(n.item.loc)) && (n.item.loc == nil || !emptyLoc(n.item.loc)) && n.item.item == nil
+//@   ensures [C02,C14] loaded-left: nloc != nil && old(nloc.node) == nil && !emptyLoc(nloc.loc) && err == nil ==> plocRecAt(fbytes[o.file], nloc.loc.Offset + 12, locOff(n.left.loc), locLen(n.left.loc)) && (n.left.loc == nil || !emptyLoc(n.left.loc)) && n.left.node == nil
+//@   ensures [C02,C14] loaded-right: nloc != nil && old(nloc.node) == nil && !emptyLoc(nloc.loc) && err == nil ==> plocRecAt(fbytes[o.file], nloc.loc.Offset + 24, locOff(n.right.loc), locLen(n.right.loc)) && (n.right.loc == nil || !emptyLoc(n.right.loc)) && n.right.node == nil
+//@   ensures [C02,C14,C13] loaded-aggregates: nloc != nil && old(nloc.node) == nil && !emptyLoc(nloc.loc) && err == nil ==> n.numNodes == fbe64(fbytes[o.file], nloc.loc.Offset + 36) && n.numBytes == fbe64(fbytes[o.file], nloc.loc.Offset + 44) && n.next == nil
 
 // ---------------------------------------------------------------------------
 // store.go: the root record
@@ -499,15 +505,16 @@ package gkvlite
 //@   from: C14 "root records framed by doubled magic markers carrying version, length and the JSON map"; C03 Q1 (one WriteAt, size advanced only on success); C09 W1
 //@   requires s != nil && s.file != nil && s.size >= 0
 //@   relies u32-limit: true
-//@   modifies s.size, new mem.byte, ghost file, ghost flen, ghost io.fails, ghost io.writes, ghost io.minoff
+//@   modifies s.size, new mem.byte, ghost fbytes, ghost flen, ghost io.fails, ghost io.writes, ghost io.minoff
 //@   ensures [C07] E1: io.fails >= old(io.fails) && (io.fails > old(io.fails) ==> result != nil)
 //@   ensures [C07,C03] E3: result != nil ==> s.size == old(s.size)
 //@   ensures [C03] single-commit-write: io.writes <= old(io.writes) + 1 && (result == nil ==> io.writes == old(io.writes) + 1)
-//@   ensures [C02,C14] grows: result == nil ==> s.size >= old(s.size) + 46 && s.size - old(s.size) < 4294967296 ==> true
-//@   ensures [C14,C02,C03] header: result == nil && s.size - old(s.size) < 4294967296 ==> magicBegAt(file[s.file], old(s.size)) && fbe32(file[s.file], old(s.size) + 12) == 4 && fbe32(file[s.file], old(s.size) + 16) == s.size - old(s.size)
-//@   ensures [C14,C02,C03] trailer: result == nil && s.size - old(s.size) < 4294967296 ==> magicEndAt(file[s.file], s.size) && fbe64(file[s.file], s.size - 24) == old(s.size) && fbe32(file[s.file], s.size - 16) == s.size - old(s.size)
-//@   ensures [C09,C03] append-only: io.minoff[s.file] >= min(old(io.minoff[s.file]), old(s.size)) && samePrefix(file[s.file], old(file[s.file]), old(s.size))
-//@   ensures [C09] other-files: forall f :: f != s.file ==> file[f] == old(file[f]) && flen[f] == old(flen[f]) && io.minoff[f] == old(io.minoff[f])
+//@   ensures [C02,C14,C03] grows: (result == nil ==> s.size >= old(s.size) + 46) && s.size >= old(s.size) && io.writes >= old(io.writes)
+//@   ensures [C14,C03] markers: result == nil ==> magicBegAt(fbytes[s.file], old(s.size)) && magicEndAt(fbytes[s.file], s.size)
+//@   ensures [C14,C02,C03] header: result == nil && s.size - old(s.size) < 4294967296 ==> magicBegAt(fbytes[s.file], old(s.size)) && fbe32(fbytes[s.file], old(s.size) + 12) == 4 && fbe32(fbytes[s.file], old(s.size) + 16) == s.size - old(s.size)
+//@   ensures [C14,C02,C03] trailer: result == nil && s.size - old(s.size) < 4294967296 ==> magicEndAt(fbytes[s.file], s.size) && fbe64(fbytes[s.file], s.size - 24) == old(s.size) && fbe32(fbytes[s.file], s.size - 16) == s.size - old(s.size)
+//@   ensures [C09,C03] append-only: io.minoff[s.file] >= min(old(io.minoff[s.file]), old(s.size)) && samePrefix(fbytes[s.file], old(fbytes[s.file]), old(s.size))
+//@   ensures [C09] other-files: forall f :: f != s.file ==> fbytes[f] == old(fbytes[f]) && flen[f] == old(flen[f]) && io.minoff[f] == old(io.minoff[f])
 
 // ===========================================================================
 // node.go / alloc.go: nodeLoc helpers, allocators and the reclaim protocol (C10 local obligations, C05 lock discipline)
@@ -741,15 +748,20 @@ package gkvlite
 //@   from: A8 (library): sorts in place; the multiset of elements is preserved
 //@   modifies content(x)
 //@   ensures sortedStrs(content(x), off(x), len(x))
-//@   ensures forall v :: occurs(content(x), off(x), len(x), v) == old(occurs(content(x), off(x), len(x), v))
+//@   ensures forall i :: off(x) <= i && i < off(x) + len(x) ==> content(x)[i] == old(content(x))[sortperm(old(content(x)), off(x), len(x), i)] && off(x) <= sortperm(old(content(x)), off(x), len(x), i) && sortperm(old(content(x)), off(x), len(x), i) < off(x) + len(x)
+//@   ensures forall j :: off(x) <= j && j < off(x) + len(x) ==> old(content(x))[j] == content(x)[sortpermInv(old(content(x)), off(x), len(x), j)] && off(x) <= sortpermInv(old(content(x)), off(x), len(x), j) && sortpermInv(old(content(x)), off(x), len(x), j) < off(x) + len(x)
 
 //@ func collNames
 //@   props C12 C05 C02
 //@   from: C12 statement "GetCollectionNames is always the sorted set of current names"; C05 L6
 //@   modifies new mem.Int
 //@   ensures [C12,C05] sorted: sortedStrs(content(result), off(result), len(result)) && fresh(result)
+//@   ensures [C12] only-names: forall i in result :: has(coll, result[i])
+//@   ensures [C12] all-names: forall k :: has(coll, k) ==> exists i in result :: result[i] == k
 //@   loop 0 modifies mem.Int
 //@   loop 0 invariant fresh(res)
+//@   loop 0 invariant forall i in res :: has(coll, res[i])
+//@   loop 0 invariant forall k :: seen(k) ==> exists i in res :: res[i] == k
 //@   loop 0 invariant older-arrays-untouched: forall a :: !fresh(a) ==> mem.Int[a] == old(mem.Int[a])
 
 //@ func copyColl
@@ -779,6 +791,7 @@ package gkvlite
 //@   requires s != nil && s.coll != nil && locks == emptyLocks()
 //@   modifies new mem.Int
 //@   ensures [C12] sorted: sortedStrs(content(result), off(result), len(result))
+//@   ensures [C12] exactly-the-names: (forall i in result :: has(deref(s.coll), result[i])) && (forall k :: has(deref(s.coll), k) ==> exists i in result :: result[i] == k)
 
 //@ func (*Store).SetCollection
 //@   props C12 C10 C04 C05 C09
@@ -810,3 +823,158 @@ package gkvlite
 //@   ensures [C12] other-handles-undisturbed: forall c: *Collection :: c != nil && (!old(has(deref(s.coll), name)) || c != old(deref(s.coll)[name])) ==> c.root == old(c.root)
 //@   loop 0 invariant retry-never-needed-sequentially: true
 //@   loop 0 decreases 0
+
+// ---------------------------------------------------------------------------
+// collection.go: persisting a collection (children first), used by Flush and Write
+
+//@ func (*Collection).writeItems
+//@   props C02 C03 C09 C07 C14
+//@   requires [C05,C18] nolocks: locks == emptyLocks()
+//@   requires t != nil && t.store != nil && t.store.file != nil && t.store.size >= 0
+//@   relies acyclic: nloc != nil && nloc.node != nil ==> rank(nloc.node) >= 0 && (nloc.node.left.node != nil ==> rank(nloc.node.left.node) < rank(nloc.node)) && (nloc.node.right.node != nil ==> rank(nloc.node.right.node) < rank(nloc.node))
+//@   modifies itemLoc.loc, t.store.size, new ploc.Offset, new ploc.Length, new mem.byte, ghost fbytes, ghost flen, ghost io.fails, ghost io.writes, ghost io.minoff
+//@   decreases (nloc == nil || nloc.node == nil) ? 0 : rank(nloc.node) + 1
+//@   ensures [C07] E1: io.fails >= old(io.fails) && (io.fails > old(io.fails) ==> err != nil)
+//@   ensures [C09,C03] size-monotone: t.store.size >= old(t.store.size) && io.writes >= old(io.writes)
+//@   ensures [C09,C03] writes-at-or-beyond-old-size: io.minoff[t.store.file] >= min(old(io.minoff[t.store.file]), old(t.store.size))
+//@   ensures [C09,C03] bytes-below-old-size-unchanged: samePrefix(fbytes[t.store.file], old(fbytes[t.store.file]), old(t.store.size))
+//@   ensures [C09] other-files: forall f :: f != t.store.file ==> fbytes[f] == old(fbytes[f]) && flen[f] == old(flen[f]) && io.minoff[f] == old(io.minoff[f])
+//@   ensures [C02] locations-only-appear: forall x: *itemLoc :: !old(emptyLoc(x.loc)) ==> x.loc == old(x.loc)
+//@   ensures [C02] own-item-located: err == nil && nloc != nil && emptyLoc(nloc.loc) && nloc.node != nil ==> !emptyLoc(nloc.node.item.loc)
+
+//@ func (*Collection).writeNodes
+//@   props C02 C03 C09 C07 C14
+//@   from: C14 "node records written after their children"; C02 P2
+//@   requires [C05,C18] nolocks: locks == emptyLocks()
+//@   requires t != nil && t.store != nil && t.store.file != nil && t.store.size >= 0
+//@   relies acyclic: nloc != nil && nloc.node != nil ==> rank(nloc.node) >= 0 && (nloc.node.left.node != nil ==> rank(nloc.node.left.node) < rank(nloc.node)) && (nloc.node.right.node != nil ==> rank(nloc.node.right.node) < rank(nloc.node))
+//@   modifies nodeLoc.loc, t.store.size, new ploc.Offset, new ploc.Length, new mem.byte, ghost fbytes, ghost flen, ghost io.fails, ghost io.writes, ghost io.minoff
+//@   decreases (nloc == nil || nloc.node == nil) ? 0 : rank(nloc.node) + 1
+//@   ensures [C07] E1: io.fails >= old(io.fails) && (io.fails > old(io.fails) ==> err != nil)
+//@   ensures [C09,C03] size-monotone: t.store.size >= old(t.store.size) && io.writes >= old(io.writes)
+//@   ensures [C09,C03] writes-at-or-beyond-old-size: io.minoff[t.store.file] >= min(old(io.minoff[t.store.file]), old(t.store.size))
+//@   ensures [C09,C03] bytes-below-old-size-unchanged: samePrefix(fbytes[t.store.file], old(fbytes[t.store.file]), old(t.store.size))
+//@   ensures [C09] other-files: forall f :: f != t.store.file ==> fbytes[f] == old(fbytes[f]) && flen[f] == old(flen[f]) && io.minoff[f] == old(io.minoff[f])
+//@   ensures [C02] locations-only-appear: forall x: *nodeLoc :: !old(emptyLoc(x.loc)) ==> x.loc == old(x.loc)
+//@   ensures [C02,C14] P2-persisted-or-empty: err == nil && nloc != nil ==> !emptyLoc(nloc.loc) || nloc.node == nil
+
+//@ func (*Collection).write
+//@   props C02 C03 C09 C07
+//@   requires [C05,C18] nolocks: locks == emptyLocks()
+//@   requires t != nil && t.store != nil && t.store.file != nil && t.store.size >= 0
+//@   modifies itemLoc.loc, nodeLoc.loc, t.store.size, new ploc.Offset, new ploc.Length, new mem.byte, ghost fbytes, ghost flen, ghost io.fails, ghost io.writes, ghost io.minoff
+//@   ensures [C07] E1: io.fails >= old(io.fails) && (io.fails > old(io.fails) ==> result != nil)
+//@   ensures [C09,C03] size-monotone: t.store.size >= old(t.store.size) && io.writes >= old(io.writes)
+//@   ensures [C09,C03] writes-at-or-beyond-old-size: io.minoff[t.store.file] >= min(old(io.minoff[t.store.file]), old(t.store.size))
+//@   ensures [C09,C03] bytes-below-old-size-unchanged: samePrefix(fbytes[t.store.file], old(fbytes[t.store.file]), old(t.store.size))
+//@   ensures [C09] other-files: forall f :: f != t.store.file ==> fbytes[f] == old(fbytes[f]) && flen[f] == old(flen[f]) && io.minoff[f] == old(io.minoff[f])
+//@   ensures [C02] root-persisted-or-empty: result == nil && nloc != nil ==> !emptyLoc(nloc.loc) || nloc.node == nil
+
+//@ func (*Store).Flush$1
+//@   inline
+//@   loop 0 modifies rootNodeLoc.refs, rootNodeLoc.root, rootNodeLoc.next, rootNodeLoc.chainedCollection, rootNodeLoc.chainedRootNodeLoc, node.numNodes, node.numBytes, node.next, itemLoc.loc, itemLoc.item, nodeLoc.loc, nodeLoc.node, nodeLoc.next, mem.ptr, G.freeNodes, G.freeNodeLocs, G.freeRootNodeLocs, AllocStats.CurFreeNodes, AllocStats.FreeNodes, AllocStats.CurFreeNodeLocs, AllocStats.FreeNodeLocs, AllocStats.CurFreeRootNodeLocs, AllocStats.FreeRootNodeLocs, ghost net
+//@   loop 0 invariant -1 <= rangeindex && rangeindex < len(cnames)
+//@   loop 0 decreases len(cnames) - rangeindex
+
+//@ func (*Store).Flush
+//@   props C02 C03 C04 C05 C07 C09 C12 C18
+//@   from: C03 "the root record is the last write of Flush" (single commit point); C09 W1; C04 "snapshots refuse ... Flush"; C07 E1; C05 L6 (versions are pinned in sorted name order before anything is written)
+//@   requires s != nil && locks == emptyLocks() && s.size >= 0
+//@   requires [C07] open-store: s.coll != nil && deref(s.coll) != nil
+//@   relies registered-handles-are-usable: forall k :: has(deref(s.coll), k) ==> deref(s.coll)[k] != nil && deref(s.coll)[k].rootLock != nil && deref(s.coll)[k].root != nil && deref(s.coll)[k].store == s && deref(s.coll)[k].root.refs >= 1
+//@   relies root-locks-are-private: forall k :: has(deref(s.coll), k) ==> deref(s.coll)[k].rootLock != ref(freeNodeLock) && deref(s.coll)[k].rootLock != ref(freeNodeLocLock) && deref(s.coll)[k].rootLock != ref(freeRootNodeLocLock)
+//@   modifies itemLoc.loc, nodeLoc.loc, s.size, rootNodeLoc.refs, rootNodeLoc.root, rootNodeLoc.next, rootNodeLoc.chainedCollection, rootNodeLoc.chainedRootNodeLoc, node.numNodes, node.numBytes, node.next, itemLoc.item, nodeLoc.node, nodeLoc.next, mem.ptr, G.freeNodes, G.freeNodeLocs, G.freeRootNodeLocs, AllocStats.CurFreeNodes, AllocStats.FreeNodes, AllocStats.CurFreeNodeLocs, AllocStats.FreeNodeLocs, AllocStats.CurFreeRootNodeLocs, AllocStats.FreeRootNodeLocs, new ploc.Offset, new ploc.Length, new mem.byte, new mem.Int, ghost fbytes, ghost flen, ghost io.fails, ghost io.writes, ghost io.minoff, ghost net
+//@   ensures [C07] E1: io.fails >= old(io.fails) && (io.fails > old(io.fails) ==> result != nil)
+//@   ensures [C04] read-only-store-refuses: s.readOnly ==> result != nil && fbytes == old(fbytes) && flen == old(flen) && s.size == old(s.size) && io.writes == old(io.writes)
+//@   ensures [C07] memory-only-store-refuses: s.file == nil ==> result != nil && s.size == old(s.size)
+//@   ensures [C09,C03] size-monotone: s.size >= old(s.size) && io.writes >= old(io.writes)
+//@   ensures [C09,C03] writes-at-or-beyond-old-size: s.file != nil ==> io.minoff[s.file] >= min(old(io.minoff[s.file]), old(s.size))
+//@   ensures [C09,C03,C07] bytes-below-old-size-unchanged: s.file != nil ==> samePrefix(fbytes[s.file], old(fbytes[s.file]), old(s.size))
+//@   ensures [C09] other-files: forall f :: f != s.file ==> fbytes[f] == old(fbytes[f]) && flen[f] == old(flen[f]) && io.minoff[f] == old(io.minoff[f])
+//@   ensures [C03,C02,C14] commit-point-is-last: result == nil ==> magicEndAt(fbytes[s.file], s.size) && s.size >= old(s.size) + 46
+//@   loop 0 modifies rootNodeLoc.refs, mapcontent(rnls)
+//@   loop 0 invariant -1 <= rangeindex && rangeindex < len(cnames)
+//@   loop 0 invariant [C05] pinned-prefix: forall j in cnames :: j <= rangeindex ==> has(rnls, cnames[j]) && rnls[cnames[j]] != nil && rnls[cnames[j]] == coll[cnames[j]].root
+//@   loop 0 decreases len(cnames) - rangeindex
+//@   loop 1 modifies itemLoc.loc, nodeLoc.loc, s.size, new ploc.Offset, new ploc.Length, new mem.byte, ghost fbytes, ghost flen, ghost io.fails, ghost io.writes, ghost io.minoff
+//@   loop 1 invariant -1 <= rangeindex && rangeindex < len(cnames)
+//@   loop 1 invariant [C07] no-io-failure-so-far: io.fails == old(io.fails)
+//@   loop 1 invariant [C09,C03] appended-only-so-far: s.size >= old(s.size) && io.writes >= old(io.writes) && io.minoff[s.file] >= min(old(io.minoff[s.file]), old(s.size)) && samePrefix(fbytes[s.file], old(fbytes[s.file]), old(s.size)) && (forall f :: f != s.file ==> fbytes[f] == old(fbytes[f]) && flen[f] == old(flen[f]) && io.minoff[f] == old(io.minoff[f]))
+//@   loop 1 decreases len(cnames) - rangeindex
+
+//@ func (*Store).readRoots
+//@   props C02 C03 C07 C09 C19
+//@   requires [C05,C18] nolocks: locks == emptyLocks()
+//@   requires s != nil && s.file != nil
+//@   modifies s.size, s.coll, ghost io.fails, ghost io.reads, ghost io.valbytes, ghost src
+//@   ensures [C07] E1: io.fails >= old(io.fails) && (io.fails > old(io.fails) ==> result != nil)
+//@   ensures [C03,C02] opens-at-the-greatest-valid-root: result == nil && s.size > 0 ==> validRootEndingAt(fbytes[s.file], s.size) && s.size <= flen[s.file] && (forall p :: s.size < p && p <= flen[s.file] ==> !validRootEndingAt(fbytes[s.file], p))
+//@   ensures [C03] empty-fbytes-opens-empty: result == nil && s.size <= 0 ==> flen[s.file] <= 0 && s.coll == old(s.coll)
+//@   ensures [C03] no-roots-error: result != nil && io.fails == old(io.fails) ==> forall p :: p <= flen[s.file] ==> !validRootEndingAt(fbytes[s.file], p)
+//@   ensures [C02] collections-stay-set: old(s.coll) != nil ==> s.coll != nil
+
+//@ func NewStore
+//@   inline
+
+//@ func NewStoreEx
+//@   props C02 C03 C07 C09 C19 C17
+//@   requires [C05,C18] nolocks: locks == emptyLocks()
+//@   modifies new Store.size, new Store.nodeAllocs, new Store.coll, new Store.file, new Store.readOnly, new StoreCallbacks.BeforeItemWrite, new StoreCallbacks.AfterItemRead, new StoreCallbacks.ItemAlloc, new StoreCallbacks.ItemAddRef, new StoreCallbacks.ItemDecRef, new StoreCallbacks.ItemValLength, new StoreCallbacks.ItemValWrite, new StoreCallbacks.ItemValRead, new StoreCallbacks.KeyCompareForCollection, new cell.Int, new map.ptr, new map.dom, ghost io.fails, ghost io.reads, ghost io.valbytes, ghost src
+//@   ensures [C07] E1: io.fails >= old(io.fails) && (io.fails > old(io.fails) ==> result1 != nil)
+//@   ensures [C07] failed-open-returns-no-store: result1 != nil ==> result0 == nil
+//@   ensures [C02,C03] opened: result1 == nil ==> result0 != nil && fresh(result0) && !result0.readOnly && result0.coll != nil
+//@   ensures [C02] memory-only: result1 == nil && file == nil ==> result0.file == nil && result0.size == 0
+//@   ensures [C03,C02] opens-at-the-greatest-valid-root: result1 == nil && result0.file != nil && result0.size > 0 ==> result0.file == file && validRootEndingAt(fbytes[file], result0.size) && (forall p :: result0.size < p && p <= flen[file] ==> !validRootEndingAt(fbytes[file], p))
+
+//@ func (*Store).FlushRevert
+//@   props C08 C04 C09 C07 C03
+//@   from: C08 statement; C09 W2 ("truncated only by FlushRevert on the writable store and only to the end of a root record (or to zero length)"); C04 (a snapshot's FlushRevert has no file effect)
+//@   requires s != nil && locks == emptyLocks()
+//@   requires [C07] open-store: s.coll != nil && deref(s.coll) != nil
+//@   relies registered-handles-are-usable: forall k :: has(deref(s.coll), k) && deref(s.coll)[k] != nil ==> deref(s.coll)[k].rootLock != nil && deref(s.coll)[k].store != nil
+//@   modifies s.size, s.coll, cell.Int, new map.ptr, new map.dom, Collection.root, rootNodeLoc.refs, rootNodeLoc.root, rootNodeLoc.next, rootNodeLoc.chainedCollection, rootNodeLoc.chainedRootNodeLoc, node.numNodes, node.numBytes, node.next, itemLoc.loc, itemLoc.item, nodeLoc.loc, nodeLoc.node, nodeLoc.next, mem.ptr, G.freeNodes, G.freeNodeLocs, G.freeRootNodeLocs, AllocStats.CurFreeNodes, AllocStats.FreeNodes, AllocStats.CurFreeNodeLocs, AllocStats.FreeNodeLocs, AllocStats.CurFreeRootNodeLocs, AllocStats.FreeRootNodeLocs, ghost net, ghost flen, ghost io.fails, ghost io.reads, ghost io.valbytes, ghost io.truncs, ghost io.lasttrunc, ghost src
+//@   ensures [C08] memory-only-store-refuses: s.file == nil ==> result != nil && s.size == old(s.size) && io.truncs == old(io.truncs) && flen == old(flen)
+//@   ensures [C07] E1: io.fails >= old(io.fails) && (io.fails > old(io.fails) ==> result != nil)
+//@   ensures [C09,C04] never-writes: fbytes == old(fbytes) && io.writes == old(io.writes)
+//@   ensures [C08,C03] lands-on-the-previous-root: result == nil && s.size > 0 ==> validRootEndingAt(fbytes[s.file], s.size) && s.size < max(old(s.size), 45) && (forall p :: s.size < p && p < old(s.size) ==> !validRootEndingAt(fbytes[s.file], p))
+//@   ensures [C08] or-on-the-empty-store: result == nil && s.size <= 0 ==> s.size == 0 && (forall p :: p < old(s.size) ==> !validRootEndingAt(fbytes[s.file], p))
+//@   ensures [C09,C08] truncates-exactly-there: result == nil && !s.readOnly ==> io.truncs == old(io.truncs) + 1 && io.lasttrunc[s.file] == s.size && flen[s.file] == s.size
+//@   ensures [C04,C09] snapshot-never-truncates: s.readOnly ==> io.truncs == old(io.truncs) && flen == old(flen)
+//@   ensures [C09] at-most-one-truncate: io.truncs <= old(io.truncs) + 1 && (io.truncs > old(io.truncs) ==> io.lasttrunc[s.file] == s.size && (s.size == 0 || validRootEndingAt(fbytes[s.file], s.size)))
+//@   loop 0 modifies Collection.root, rootNodeLoc.refs, rootNodeLoc.root, rootNodeLoc.next, rootNodeLoc.chainedCollection, rootNodeLoc.chainedRootNodeLoc, node.numNodes, node.numBytes, node.next, itemLoc.loc, itemLoc.item, nodeLoc.loc, nodeLoc.node, nodeLoc.next, mem.ptr, G.freeNodes, G.freeNodeLocs, G.freeRootNodeLocs, AllocStats.CurFreeNodes, AllocStats.FreeNodes, AllocStats.CurFreeNodeLocs, AllocStats.FreeNodeLocs, AllocStats.CurFreeRootNodeLocs, AllocStats.FreeRootNodeLocs, ghost net
+//@   loop 0 invariant true
+
+//@ func (*Store).Snapshot
+//@   props C04 C05 C09 C10
+//@   from: C04 statement: a snapshot reads exactly the contents at the moment of Snapshot(): it holds the same version objects, pinned; it is read-only; nothing of the original changes
+//@   requires s != nil && locks == emptyLocks()
+//@   requires [C07] open-store: s.coll != nil && deref(s.coll) != nil
+//@   relies registered-handles-are-usable: forall k :: has(deref(s.coll), k) ==> deref(s.coll)[k] != nil && deref(s.coll)[k].rootLock != nil && deref(s.coll)[k].root != nil
+//@   modifies rootNodeLoc.refs, new Store.size, new Store.nodeAllocs, new Store.coll, new Store.file, new Store.readOnly, new StoreCallbacks.BeforeItemWrite, new StoreCallbacks.AfterItemRead, new StoreCallbacks.ItemAlloc, new StoreCallbacks.ItemAddRef, new StoreCallbacks.ItemDecRef, new StoreCallbacks.ItemValLength, new StoreCallbacks.ItemValWrite, new StoreCallbacks.ItemValRead, new StoreCallbacks.KeyCompareForCollection, new cell.Int, map.ptr, map.dom, new mem.Int, new Collection.name, new Collection.store, new Collection.compare, new Collection.rootLock, new Collection.root, new Collection.AppData
+//@   ensures [C04] read-only-copy: snapshot != nil && fresh(snapshot) && snapshot.readOnly && snapshot.file == s.file && snapshot.size == s.size && snapshot.coll != nil && fresh(deref(snapshot.coll))
+//@   ensures [C04] same-names: forall k :: has(deref(snapshot.coll), k) == has(deref(s.coll), k)
+//@   ensures [C04] same-version-objects: forall k :: has(deref(s.coll), k) ==> deref(snapshot.coll)[k] != nil && deref(snapshot.coll)[k].root == deref(s.coll)[k].root && deref(snapshot.coll)[k].rootLock == deref(s.coll)[k].rootLock
+//@   ensures [C04] original-handles-untouched: forall c: *Collection :: !fresh(c) ==> c.root == old(c.root) && c.store == old(c.store) && c.compare == old(c.compare)
+//@   ensures [C04] original-map-untouched: s.coll == old(s.coll) && map.ptr[deref(s.coll)] == old(map.ptr[deref(s.coll)]) && map.dom[deref(s.coll)] == old(map.dom[deref(s.coll)])
+//@   loop 0 modifies rootNodeLoc.refs, map.ptr, map.dom, new Collection.name, new Collection.store, new Collection.compare, new Collection.rootLock, new Collection.root, new Collection.AppData
+//@   loop 0 invariant -1 <= rangeindex
+//@   loop 0 invariant res != nil && fresh(res) && res.readOnly && res.file == s.file && res.size == s.size && res.coll != nil && deref(res.coll) == coll && fresh(coll) && coll != deref(s.coll)
+//@   loop 0 invariant [C04] same-names-so-far: forall k :: has(coll, k) == has(deref(s.coll), k)
+//@   loop 0 invariant [C04] original-map-untouched: map.ptr[deref(s.coll)] == old(map.ptr[deref(s.coll)]) && map.dom[deref(s.coll)] == old(map.dom[deref(s.coll)])
+//@   loop 0 invariant handles-still-usable: forall k :: has(coll, k) ==> coll[k] != nil && coll[k].rootLock != nil && coll[k].root != nil && coll[k].root == deref(s.coll)[k].root && coll[k].rootLock == deref(s.coll)[k].rootLock
+//@   loop 0 invariant [C04] original-handles-untouched: forall c: *Collection :: !fresh(c) ==> c.root == old(c.root) && c.store == old(c.store) && c.compare == old(c.compare) && c.rootLock == old(c.rootLock)
+
+//@ func (*Store).Close
+//@   props C04 C09 C10 C15 C12
+//@   requires s != nil && locks == emptyLocks()
+//@   relies registered-handles-are-usable: s.coll != nil ==> deref(s.coll) != nil && (forall k :: has(deref(s.coll), k) && deref(s.coll)[k] != nil ==> deref(s.coll)[k].rootLock != nil && deref(s.coll)[k].store != nil)
+//@   modifies s.file, s.coll, new mem.Int, Collection.root, rootNodeLoc.refs, rootNodeLoc.root, rootNodeLoc.next, rootNodeLoc.chainedCollection, rootNodeLoc.chainedRootNodeLoc, node.numNodes, node.numBytes, node.next, itemLoc.loc, itemLoc.item, nodeLoc.loc, nodeLoc.node, nodeLoc.next, mem.ptr, G.freeNodes, G.freeNodeLocs, G.freeRootNodeLocs, AllocStats.CurFreeNodes, AllocStats.FreeNodes, AllocStats.CurFreeNodeLocs, AllocStats.FreeNodeLocs, AllocStats.CurFreeRootNodeLocs, AllocStats.FreeRootNodeLocs, ghost net
+//@   ensures [C04,C09] closed-without-file-effect: s.file == nil && s.coll == nil
+//@   ensures [C04] published-map-not-mutated: old(s.coll) != nil ==> map.ptr == old(map.ptr) && map.dom == old(map.dom)
+//@   loop 0 modifies Collection.root, rootNodeLoc.refs, rootNodeLoc.root, rootNodeLoc.next, rootNodeLoc.chainedCollection, rootNodeLoc.chainedRootNodeLoc, node.numNodes, node.numBytes, node.next, itemLoc.loc, itemLoc.item, nodeLoc.loc, nodeLoc.node, nodeLoc.next, mem.ptr, G.freeNodes, G.freeNodeLocs, G.freeRootNodeLocs, AllocStats.CurFreeNodes, AllocStats.FreeNodes, AllocStats.CurFreeNodeLocs, AllocStats.FreeNodeLocs, AllocStats.CurFreeRootNodeLocs, AllocStats.FreeRootNodeLocs, ghost net
+//@   loop 0 invariant -1 <= rangeindex
+
+//@ func (*Store).Stats
+//@   props C09
+//@   requires s != nil && out != nil
+//@   modifies mapcontent(out)
